@@ -33,6 +33,7 @@ READS = re.compile(
     r"|std::io::Read::read_exact$|Cursor.*::set_position$)")
 VISITS = re.compile(r"serde_core::de::Visitor::visit_\w+$")
 SEED = re.compile(r"serde_core::de::DeserializeSeed::deserialize$")
+SUBTYPE_VOUCHES = re.compile(r"Deserializer::<'de>::deserialize_(service|function)$")
 HELPERS = re.compile(r"candid::de::Deserializer::<'de>::(deserialize_\w+|recoverable_visit_some)$")
 TRAIT_DE = re.compile(r"<&mut candid::de::Deserializer<'de> as serde_core::de::Deserializer<'de>>::(deserialize_\w+)$")
 
@@ -489,7 +490,13 @@ def analyse(body, entry_bits, info=None):
                     if ap is not None and "mul" in info.len_tags.get(ap["l"], set()):
                         nb.add("bulk")
             elif name.endswith("Deserializer::<'de>::check_subtype"):
-                nb.update(("E", "W"))
+                # wire <: expected vouches for a read only where the layout of the value does not depend on the wire type: reference
+                # values (service, func).  Anywhere else the relation also holds for `empty` (and would for any future bottom-like
+                # type), whose "values" would then be read from arbitrary bytes, so data reads need an exact test of the wire type.
+                if SUBTYPE_VOUCHES.search(b.key):
+                    nb.update(("E", "W"))
+                else:
+                    nb.add("SUB")
             elif name.endswith("Deserializer::<'de>::unroll_type"):
                 nb.add("unrolled")
             return frozenset(nb)
